@@ -37,6 +37,9 @@ type HarnessSpec struct {
 	Bounds   string // human description of the bounds
 	Outside  string
 	Params   map[string]int // harness parameters by tier, read via zzParam
+	// NotOf: obligations of a shared harness that state another property; they
+	// are not evaluated under this registration (they are under the other one)
+	NotOf []string
 }
 
 type Counterexample struct {
